@@ -4,6 +4,7 @@ import Pyunicorn.Model.SimilarityHilbert
 import Pyunicorn.Model.SimilarityScript
 import Pyunicorn.Model.SimilarityNumeric
 import Pyunicorn.Model.SimilarityCoupled
+import Pyunicorn.Model.SimilarityHilbertX
 /-! Line-protocol driver for C09.
 
 Requests (`S`, `damp` row-major rational matrices):
@@ -21,6 +22,8 @@ Requests (`S`, `damp` row-major rational matrices):
   states `θ|A|n_links|density|directed`
 * `xhist …` (round 4): the request of `hist` run through the NaN / float32 model `XNet` with
   `fl = rn24`; matrix entries and `T:` thresholds may be `nan`; reported thresholds may be `nan`
+* `xhhist …` (round 5): the request of `hhist` run through the NaN / float32 Hilbert model `XHNet`
+  with `fl = rn24`; coherence / phase entries and `T:` thresholds may be `nan`
 * `rn24 <x>` → `x` rounded to binary32;  `xadj <N> <W> <θ>` → `thresholdAdjacencyX` (entries / θ may be `nan`)
 * `coupled <N1> <N2> <directed> <S0> <init> <op,…>` → per state (constructor included)
   `cross_layer_adjacency|adjacency_1|adjacency_2|number_cross_layer_links|cross_link_density|`
@@ -180,6 +183,40 @@ def xtrace (s : XNet) : List XOp → List String
     | some s' =>
       if s'.density.isNone then ["raise:ZeroDivision"] else showXState s' :: xtrace s' os
 
+/-! ### NaN / float32 Hilbert model (round 5) -/
+
+def showXHState (h : XHNet) : String :=
+  s!"{showXState h.net}|{if h.net.directed then 1 else 0}"
+
+def parseXHOp (N : Nat) (mats : List XSim) (tok : String) : Option XHOp :=
+  match tok.splitOn ":" with
+  | ["T", v] => if v == "nan" then some (XHOp.thr none) else (rat? v).map fun t => XHOp.thr (some t)
+  | ["D", v] => (rat? v).map fun ρ => XHOp.dens (ieeeIndex ρ (N * N - N))
+  | ["L", v] => v.toNat?.map fun b => XHOp.nl (b != 0)
+  | ["X", d, ks, kp] =>
+    match d.toNat?, ks.toNat?.bind (mats[·]?), kp.toNat?.bind (mats[·]?) with
+    | some dv, some S1, some P1 => some (XHOp.dir (dv != 0) S1 P1)
+    | _, _, _ => none
+  | _ => none
+
+def xhtrace (h : XHNet) : List XHOp → List String
+  | [] => []
+  | o :: os =>
+    match h.step rn24 o with
+    | none => ["raise:IndexError"]
+    | some h' =>
+      if h'.net.density.isNone then ["raise:ZeroDivision"] else showXHState h' :: xhtrace h' os
+
+def xhinit (N : Nat) (d nl : Bool) (S0 P0 : XSim) (damp : Sim) (tok : String) :
+    Option (Option XHNet) :=
+  match tok.splitOn ":" with
+  | ["T", v] =>
+    if v == "nan" then some (some (mkHilbertX rn24 N d S0 P0 damp nl none))
+    else (rat? v).map fun θ => some (mkHilbertX rn24 N d S0 P0 damp nl (some θ))
+  | ["D", v] => (rat? v).map fun ρ =>
+      mkHilbertDensityX rn24 N d S0 P0 damp nl (ieeeIndex ρ (N * N - N))
+  | _ => none
+
 def showOpt (x : Option Rat) : String := match x with
   | some r => showRat r
   | none => "raise:ZeroDivision"
@@ -221,6 +258,18 @@ def answer (toks : List String) : String :=
     match ((splitTok init ",") ++ (splitTok ops ",")).mapM (parseXOp N mats) with
     | none => "bad-request"
     | some os => join (xtrace b os) ";"
+  | "xhhist" :: n :: d :: nl :: s0 :: p0 :: dm :: init :: ops :: rest =>
+    let N := n.toNat!
+    let mats := match rest with
+      | [m] => (splitTok m "@").map fun t => xmatFn (xMat t)
+      | _ => []
+    match xhinit N (d != "0") (nl != "0") (xmatFn (xMat s0)) (xmatFn (xMat p0))
+        (matFn (ratMat dm)) init, (splitTok ops ",").mapM (parseXHOp N mats) with
+    | some none, _ => "raise:IndexError"
+    | some (some h), some os =>
+      if h.net.density.isNone then "raise:ZeroDivision"
+      else join (showXHState h :: xhtrace h os) ";"
+    | _, _ => "bad-request"
   | ["rn24", x] => match rat? x with
     | some v => showRat (rn24 v)
     | none => "bad-request"
